@@ -18,6 +18,23 @@ func stubSeq(n int, special int64, sel int64) uint64 {
 	return specialSeqs[kernel.Mod(sel/3, len(specialSeqs))] - uint64(n)*1000003
 }
 
+// seqWindows: distances between two sequences of one path at which an implementation that keeps only a
+// window of receive-side state (a retention limit, a ring buffer, a bitmap word) would start to forget:
+// small numbers, powers of two and of ten.
+var seqWindows = []uint64{1, 2, 8, 10, 16, 32, 64, 100, 128, 256, 500, 512, 1000, 1024, 2048, 4096, 10000, 65536, 100000, 1 << 20}
+
+// windowSeq: a sequence a window away from one the counterparty used before (0: none available).
+func windowSeq(prev []uint64, used map[uint64]bool, sel int64) uint64 {
+	if len(prev) == 0 {
+		return 0
+	}
+	s := prev[kernel.Mod(sel, len(prev))] + seqWindows[kernel.Mod(sel/64, len(seqWindows))]
+	if s == 0 || used[s] {
+		return 0
+	}
+	return s
+}
+
 // packetReadback (C19): after the host accepted a packet (src -> host, seq), its receipt and its
 // acknowledgement are stored under the canonical decimal paths and the keeper's iteration (genesis
 // export, list queries) returns them as exactly that triple.
